@@ -63,17 +63,7 @@ def layout_rules(ctx):
                 r2.fail(fm.qualname, f"dof_n={dof_n}", fm.file, fm.lineno, meth, f"{meth} does not follow the row-major flattening of (Ne, n, n) element matrices: {bad}")
             else:
                 r2.ok(f"{meth} dof_n={dof_n}: entry (e,i,j) -> a[e,{'i' if pick == 0 else 'j'}]")
-    # Get_dofs_nodes
-    fb = repo.method(BC, "Get_dofs_nodes")
-    r1.instance(fn=fb.qualname)
-    nodes = XArray((2,), [Poly.var("n0"), Poly.var("n1")])
-    res = XArray.from_nested(I.call_function(fb, [["x", "y", "z"], nodes, ["z", "x"]]))
-    res = res.ravel() if res.ndim > 1 else res
-    want = [nodes[0] * 3 + 2, nodes[0] * 3 + 0, nodes[1] * 3 + 2, nodes[1] * 3 + 0]
-    if res.size == 4 and all(is_zero(res.data[k] - want[k]) for k in range(4)):
-        r1.ok("BoundaryCondition.Get_dofs_nodes: node*dim + index(unknown), node-major order")
-    else:
-        r1.fail(fb.qualname, "layout", fb.file, fb.lineno, "Get_dofs_nodes", f"dofs for nodes (n0,n1), unknowns (z,x) among (x,y,z) are {res.tolist() if isinstance(res, XArray) else res!r}, expected {want!r}")
+    dofs_nodes_rule(ctx, r1)
     # Get_N_pg_rep: out[p, r, n*rep + r] = N[p, n]
     fn = repo.method(GE, "Get_N_pg_rep")
     for rep in (2, 3):
@@ -426,3 +416,31 @@ def routing_rule(ctx):
             r.fail(fa.qualname, f"slot:{names[k]}", fa.file, fa.lineno, "_Simu.Assembly", bad)
         else:
             r.ok(f"{names[k]} <- slot {k} of every group that provides it")
+
+
+def dofs_nodes_rule(ctx, r1=None):
+    """dof(node, unknown) = node * dim + index(unknown), node-major, in the order of the `unknowns` argument (any
+    permutation is a documented input): decided on symbolic node numbers; when the function orders data by value the
+    decision falls back to concrete, unsorted node numbers."""
+    from ..xeval import Uninterpretable
+
+    repo = ctx.repo
+    if r1 is None:
+        r1 = ctx.rule("R3.1", "index layout: dof(node, unknown) = node*dim + index(unknown) in the caller's unknown order", min_instances=1)
+    fb = repo.method(BC, "Get_dofs_nodes")
+    I = Interp(repo)
+    r1.instance(fn=fb.qualname)
+    how = "symbolic node numbers"
+    nodes = XArray((2,), [Poly.var("n0"), Poly.var("n1")])
+    try:
+        res = XArray.from_nested(I.call_function(fb, [["x", "y", "z"], nodes, ["z", "x"]]))
+    except Uninterpretable:
+        how = "concrete node numbers (7, 2): the function orders its data by value"
+        nodes = XArray((2,), [Q(7), Q(2)])
+        res = XArray.from_nested(I.call_function(fb, [["x", "y", "z"], nodes, ["z", "x"]]))
+    res = res.ravel() if res.ndim > 1 else res
+    want = [nodes[0] * 3 + 2, nodes[0] * 3 + 0, nodes[1] * 3 + 2, nodes[1] * 3 + 0]
+    if res.size == 4 and all(is_zero(res.data[k] - want[k]) for k in range(4)):
+        r1.ok(f"BoundaryCondition.Get_dofs_nodes: node*dim + index(unknown), node-major order, unknowns in the caller's order ({how})")
+    else:
+        r1.fail(fb.qualname, "layout", fb.file, fb.lineno, "Get_dofs_nodes", f"dofs for nodes ({nodes[0]!r}, {nodes[1]!r}), unknowns (z,x) among (x,y,z) are {res.tolist() if isinstance(res, XArray) else res!r}, expected {want!r}: values given per unknown are paired with the wrong dof whenever the unknowns are not listed in canonical order")
